@@ -206,6 +206,57 @@ pub fn converge() {
     sym::reach(1);
 }
 
+/// C18 / C01: three replicas concurrently insert different elements at the same position of one array (three leaves on
+/// its descriptor). Every order of learning the three commits, a reopened replica and a run with a deviating hash
+/// iteration show the same document and winners.
+pub fn three_way() {
+    let o = Rep::new();
+    o.m.update(doc_with(&["a"], &["x".to_string()], "t")).unwrap();
+    o.m.commit(None).unwrap();
+    let mut reps: Vec<Rep> = Vec::new();
+    for e in ["b", "c", "d"] {
+        let mut r = Rep::new();
+        r.pull(&o);
+        r.m.update(doc_with(&["a", e], &["x".to_string(), "y".to_string()], "t")).unwrap();
+        r.m.commit(None).unwrap().expect("block");
+        reps.push(r);
+    }
+    sym::hash_order(0);
+    let mut r0 = Rep::new();
+    r0.pull(&o);
+    for r in &reps {
+        r0.pull(r);
+    }
+    let expected = state(&r0.m);
+    sym::hash_order(1);
+    let mut t = Rep::new();
+    t.pull(&o);
+    let mut idx = vec![0usize, 1, 2];
+    while !idx.is_empty() {
+        let i = idx.remove(sym::choose(idx.len()));
+        t.pull(&reps[i]);
+    }
+    let st = state(&t.m);
+    let re = state(&t.reopen());
+    sym::hash_order(0);
+    if st != expected {
+        sym::debug_str("expected", &expected);
+        sym::debug_str("got     ", &st);
+    }
+    assert!(st == expected, "the document depends on the order in which three concurrent commits were learnt or on hash order");
+    assert!(re == expected, "a reopened replica shows a different document for a three-way array conflict");
+    // an edit + commit freezes the merged order (automatic resolution): still the same elements in the same order
+    let before = doc_text(&t.m);
+    let mut d = t.m.read(None).unwrap();
+    d.insert("n".to_string(), Value::from(1));
+    t.m.update(d).unwrap();
+    t.m.commit(None).unwrap().expect("block");
+    let after = doc_text(&t.m);
+    assert!(after.replace("\"n\":1,", "").replace(",\"n\":1", "") == before, "commit with automatic resolution changed the three-way merged array");
+    assert!(doc_text(&t.reopen()) == after, "reopened replica differs after the automatic resolution");
+    sym::reach(1);
+}
+
 /// C01: two replicas concurrently submit documents that may create the same new objects with the same content
 /// (identical revisions appear in two different blocks); after exchange every route gives the same state.
 /// params: [k orders]
